@@ -424,9 +424,21 @@ def run_module_dot_completion(res, tier, seed):
             lib_path, imp, q = "/w/p/src/lib.gleam", "import lib as tool", "tool"
         else:
             lib_path, imp, q = "/w/p/src/kit/inner/lib.gleam", "import kit/inner/lib", "lib"
-        main = f"{imp}\npub fn main() {{\n  {q}.\n}}\n"
-        files = [(lib_path, text), ("/w/p/src/main.gleam", main), ("/w/p/gleam.toml", 'name = "p"\n')]
-        off = len(main[:main.index(f"  {q}.") + 3 + len(q)].encode())
+        # what stands BEFORE the accessor in the same block must not matter: references to constructors (plain enum members,
+        # records, generic ones) of another module, qualified, imported unqualified or in a pattern - a module that has its own
+        # idea of what the accessor's name means
+        pre, extra_imp, extra_files = "", "", []
+        if k % 2 == 1:
+            other = "pub fn drop() { 1 }\npub fn pick() { 2 }\n"
+            color = (f"import other as {q}\n\npub type Color {{\n  Red\n  Green\n}}\n\npub type Pt {{\n  Pt(x: Int)\n}}\n\npub type Opt(a) {{\n  Nope\n  Just(a)\n}}\n\n"
+                     f"pub fn use_it() {{\n  {q}.drop()\n}}\n")
+            extra_files = [("/w/p/src/other.gleam", other), ("/w/p/src/color.gleam", color)]
+            extra_imp = "import color.{Green, Nope}\n"
+            pre = rng.choice(["  let c = color.Red\n", "  let c = Green\n", "  let c = case color.Red {\n    color.Green -> 1\n    _ -> 2\n  }\n",
+                              "  let c = color.Pt(1)\n", "  let c = Nope\n", "  let c = #(color.Red, color.Just(1))\n", "  let color.Red = color.Green\n"])
+        main = f"{imp}\n{extra_imp}pub fn main() {{\n{pre}  {q}.\n}}\n"
+        files = [(lib_path, text), ("/w/p/src/main.gleam", main)] + extra_files + [("/w/p/gleam.toml", 'name = "p"\n')]
+        off = len(main[:main.index(f"  {q}.\n") + 3 + len(q)].encode())
         class W: pass
         ws = W(); ws.files = files
         qline = f"complete\t1\t{off}\t."
@@ -510,7 +522,8 @@ def run(prop, res, tier, seed):
                                    [p_refs.deep_module_workspace(grng) for _ in range(8 if tier == "quick" else 80)] +
                                    [p_refs.variant_label_workspace(grng) for _ in range(4 if tier == "quick" else 40)] +
                                    [p_refs.accessor_clash_workspace(grng) for _ in range(3 if tier == "quick" else 30)] +
-                                   [p_refs.namespace_clash_workspace(grng) for _ in range(4 if tier == "quick" else 30)])
+                                   [p_refs.namespace_clash_workspace(grng) for _ in range(4 if tier == "quick" else 30)] +
+                                   [p_refs.local_like_module_workspace(grng) for _ in range(3 if tier == "quick" else 30)])
     run_c05(res, tier, seed, want_c18=(prop == "C18"))
     if prop == "C18":
         run_dot_completion(res, tier, seed)
